@@ -194,8 +194,15 @@ async fn apply_version(
             }
         }
         if let Some(o) = svr_op {
-            if let Err(e) = apply::apply_op(txn, &o).await {
-                warn!("Invalid operation when syncing: {e} (ignored)");
+            match apply::apply_op(txn, &o).await {
+                Ok(()) => {}
+                // The operation does not make sense in the current state, so it is ignored.
+                Err(Error::Database(e)) => {
+                    warn!("Invalid operation when syncing: {e} (ignored)")
+                }
+                // Anything else is a failure of the storage, and carrying on would skip
+                // this operation but still record the version as applied.
+                Err(e) => return Err(e),
             }
             transformed_server_ops.push(o);
         }
